@@ -30,10 +30,13 @@ if os.path.exists(f"{wt}/DEMO/demo.rs"):
     shutil.copy(f"{wt}/DEMO/demo.rs", f"{wt}/tests/demo.rs")
     rc1, o1 = sh(f"cargo test --offline {FEAT} --test demo 2>&1 | tail -n 15", cwd=wt)
     fails_with = "test result: FAILED" in o1 or "panicked" in o1
-    sh("git stash push -- src macros", cwd=wt)
+    # (no `git stash`: the stash is shared by all worktrees of one repository)
+    rcr, orr = sh(f"git apply -R {out}/patch.diff", cwd=wt)
+    assert rcr == 0, orr
     rc2, o2 = sh(f"cargo test --offline {FEAT} --test demo 2>&1 | tail -n 8", cwd=wt)
     passes_without = "test result: ok" in o2
-    sh("git stash pop", cwd=wt)
+    rca, oa = sh(f"git apply {out}/patch.diff", cwd=wt)
+    assert rca == 0, oa
     meta["demo_fails_with_change"] = fails_with
     meta["demo_passes_without_change"] = passes_without
     meta["ran"].append(f"cargo test --offline {FEAT} --test demo (with the change: {'fails' if fails_with else 'passes'}; stashed: {'passes' if passes_without else 'fails'})")
